@@ -280,6 +280,10 @@ func choosePosts(c *explore.Ctx, withGC bool) []post {
 	if c.Thorough() {
 		maxLen = 3
 	}
+	return choosePostsN(c, withGC, maxLen)
+}
+
+func choosePostsN(c *explore.Ctx, withGC bool, maxLen int) []post {
 	menu := posts
 	if !withGC {
 		menu = posts[:len(posts)-1]
@@ -774,7 +778,7 @@ func lentFamily(c *explore.Ctx) {
 	if op == 1 {
 		dstKind = c.Choose(3)
 	}
-	seq := choosePosts(c, true)
+	seq := choosePostsN(c, true, 2)
 	// the caller overwrites what it lent before post number i (len+1: never); quick tier: at once, or never
 	overwriteAt := 0
 	if c.Thorough() {
@@ -915,7 +919,7 @@ func Spec() *explore.Spec {
 			{Name: "decoder", ShardDepth: 3, Body: decoderFamily, Doc: "Decoder.Decode of the first value of a stream delivered so that the tail is compacted over it / the buffer is reallocated / bytes arrive one at a time / all at once, followed by the next two Decode calls and every sequence of later calls"},
 			{Name: "tokenizer", ShardDepth: 2, Body: tokenizerFamily, Doc: "Tokenizer.String results (slices of the input, or fresh slices for escaped strings) x every sequence of later calls"},
 			{Name: "encode", ShardDepth: 2, Body: encodeFamily, Doc: "Marshal / Encoder.Encode (plain writer; writer that calls the library before consuming its argument, with and without SetIndent) / Append / MarshalIndent of 12 value kinds (incl. outputs larger than a fresh pooled buffer and sorted map[string]RawMessage), with and without a used buffer in the pool, x every sequence of <= 2 (3) later calls incl. GC; Marshal repeated at the end gives the same bytes"},
-			{Name: "lent-values", ShardDepth: 3, Body: lentFamily, Doc: "memory lent to the encoder: 10 values holding RawMessages / byte slices (small, larger than a fresh pooled buffer, larger than a grown one; top-level, behind a pointer, in structs, maps and []any), each with spare capacity behind it x {Marshal, Append x 8 flag subsets x 3 destinations, Encoder x 8 setter combinations x {plain, re-entrant writer}} x every sequence of <= 2 (3) later calls x the moment at which the caller overwrites what it lent: neither the contents nor the spare capacity of a lent value is ever written, and the result does not change when the caller overwrites it"},
+			{Name: "lent-values", ShardDepth: 3, Body: lentFamily, Doc: "memory lent to the encoder: 10 values holding RawMessages / byte slices (small, larger than a fresh pooled buffer, larger than a grown one; top-level, behind a pointer, in structs, maps and []any), each with spare capacity behind it x {Marshal, Append x 8 flag subsets x 3 destinations, Encoder x 8 setter combinations x {plain, re-entrant writer}} x every sequence of <= 2 later calls x the moment at which the caller overwrites what it lent (quick: at once or never; thorough: before any of the later calls, or never): neither the contents nor the spare capacity of a lent value is ever written, and the result does not change when the caller overwrites it"},
 		},
 		Rule: "every history op;post* within the bounds; distinct non-trivial = distinct (operation, document/value, flags)",
 		Assumptions: []string{
